@@ -70,7 +70,7 @@ def run(ctx):
     lookalikes = []
     for role in (False, True):
         own = 'kex-strict-c-v00@openssh.com' if role else 'kex-strict-s-v00@openssh.com'
-        for ctl in ('\x7f', '\x07') if q else ('\x7f', '\x07', '\x00', '\x1b', '\x9f'):
+        for ctl in ('\x7f', '\x07') if q else ('\x7f', '\x07', '\x00', '\x1b', '\x1f'):
             lookalikes.append({'banner': 'SSH-2.0-OpenSSH_9.6', 'kex': ['curve25519-sha256', own + ctl], 'key': ['ssh-ed25519'], 'enc': ['chacha20-poly1305@openssh.com', 'aes128-ctr'], 'mac': ['hmac-sha2-256'], 'client_audit': role})
             lookalikes.append({'banner': 'SSH-2.0-OpenSSH_9.6', 'kex': ['curve25519-sha256'], 'key': ['ssh-ed25519'], 'enc': ['aes128-cbc' + ctl, 'aes128-ctr'], 'mac': ['hmac-sha2-256-etm@openssh.com'], 'client_audit': role})
             lookalikes.append({'banner': 'SSH-2.0-OpenSSH_9.6', 'kex': ['curve25519-sha256'], 'key': ['ssh-ed25519'], 'enc': ['aes128-cbc', 'aes128-ctr'], 'mac': ['hmac-sha2-256-etm@openssh.com' + ctl, 'hmac-sha2-256'], 'client_audit': role})
